@@ -142,3 +142,15 @@ def run(rep, tier, seed, replay=None):
     # the documentation trap on the real code (reported, not a violation: the property is about the pattern WITH the hidden handling)
     rc, out = vh(binp, ['c17', 'trap'])
     rep.cov['documentation_trap_on_real_code'] = [l for l in out.split('\n') if l.startswith('TRAP')]
+    # ... and it must be what the model says (Props/C17.v C17_trap_fresh_scenario: fresh tree, A hidden from the start): with the hidden-mode line
+    # and on TaffyTree B and C are zero; followed literally B is zero with an empty cache and C gets a NON-zero layout
+    tl = rep.cov['documentation_trap_on_real_code']
+    guarded = [l for l in tl if 'hidden-mode line' in l]
+    literal = [l for l in tl if 'container below display:none' in l]
+    taffy = [l for l in tl if l.startswith('TRAP TaffyTree')]
+    ok = (len(guarded) == 1 and ' B=0x0@' in guarded[0] and ' C=0x0@' in guarded[0]
+          and len(literal) == 1 and ' B=0x0@' in literal[0] and ' C=0x0@' not in literal[0] and 'B.cache_empty=true' in literal[0]
+          and len(taffy) == 1 and taffy[0].count('width: 0.0, height: 0.0') == 2)
+    rep.cov['documentation_trap_matches_model'] = ok
+    if not ok:
+        rep.add_broken('correspondence', 'C17_trap_fresh_scenario (model of the documentation trap) vs `vh c17 trap`', '\n'.join(tl)[-800:])
